@@ -157,8 +157,14 @@ pub fn digest(w: Width, level: u32, text: &str) -> Result<u64, String> {
 fn det_program(ctx: &mut WorkerCtx, p: &Plan, idx: u64, code: &[u8], noise: &[Vec<u8>]) {
     let text = std::str::from_utf8(code).unwrap();
     ctx.count("programs", 1);
+    // digests are expensive (seven artefacts, twice per process, two processes): the long statement-language
+    // programs are digested at the first width and at levels 2 and 3 only
+    let long = code.len() > 30 && ctx.tier == Tier::Quick;
     for (wi, &w) in p.widths.iter().enumerate() {
         for level in 0..4u32 {
+            if long && (wi > 0 || level < 2) {
+                continue;
+            }
             ctx.count("evaluations", 2);
             let Ok(d1) = digest(w, level, text) else {
                 ctx.count("digest_failed", 1);
@@ -403,7 +409,10 @@ pub fn worker(ctx: &mut WorkerCtx) {
             }
         }
     } else if check == "C13.det" {
-        let work = programs(ctx, &p, p.det_a_len, true);
+        // digests are expensive (seven artefacts per configuration, twice per process, two processes):
+        // one statement level less than the totality part
+        let pd = plan(ctx.tier);
+        let work = programs(ctx, &pd, p.det_a_len, true);
         let noise: Vec<Vec<u8>> = vec![b",[->+>+<<]>>[-<<+>>]<.".to_vec(), b"+[[->+<]>-]".to_vec(), b"-[.-]".to_vec()];
         let n = work.len();
         for (k, (idx, code)) in work.into_iter().enumerate() {
@@ -502,7 +511,7 @@ pub fn info(tier: Tier) -> CheckInfo {
             "Totality: Executor::create of the IR interpreter, bytecode interpreter and JIT for every program of A(len<={}), B(<={} tokens), \
              S(1,{}), W, K, the regression corpus and the nesting families up to depth {}, widths {:?}, levels 0..3 (and 7 for the IR), in \
              both build profiles (release; release + debug assertions + overflow checks): no panic, no error. Determinism: for A(len<={}) \
-             and the other spaces a digest of (printed IR, printed and structural bytecode for the settings (2,fuse), (11,no fuse), \
+             and the other spaces (in the quick tier programs longer than 30 characters at the first width and levels 2,3 only) a digest of (printed IR, printed and structural bytecode for the settings (2,fuse), (11,no fuse), \
              (12,no fuse), machine code for (unlimited,checked), (limited,checked), (unlimited,unchecked)) per (program,width,level) is \
              computed by two different worker processes (different std hash seeds, ASLR disabled so embedded runtime addresses agree) \
              and twice inside each with unrelated programs compiled in between; all observations must agree. Reuse: for every program \
